@@ -122,7 +122,8 @@ def reproduce_record(rid, region, mesh, dim, deg, ncomp, rng, hess, field_cls=No
     u = field.interpolate()                       # (comp, q, c)
     r = {"id": rid, "kind": "reproduce", "nt": deg > 0, "dim": dim, "deg": max(deg, 1), "polys": polys,
          "xq": [q(p, S) for p in xq.reshape(-1, dim)], "val": [q(v, S) for v in np.transpose(u, (2, 1, 0)).reshape(-1, ncomp)],
-         "hasg": False, "hash": False, "tolv": tol, "tolg": 4 * tol, "tolh": 16 * tol, "grad": [], "hess": []}
+         "hasg": False, "hash": False, "tolv": tol * (1 + 2 * deg * deg), "tolg": 4 * tol * (1 + 2 * deg * deg), "tolh": 16 * tol * (1 + 2 * deg * deg),
+         "grad": [], "hess": []}
     if getattr(region, "dhdX", None) is not None and np.ndim(region.dhdX) == 4:
         g = field.grad()                          # (comp, j, q, c)
         r["grad"] = [q(v, S) for v in np.transpose(g, (3, 2, 0, 1)).reshape(-1, ncomp * dim)]
